@@ -321,6 +321,20 @@ func Run(r *ev.Run) {
 		if g.R.P(1, 3) {
 			lg = lg.Named("n").With(zap.Int("w", 1))
 		}
+		if g.R.P(1, 4) {
+			// the logger is derived once more with the IncreaseLevel option - half of the time at exactly
+			// the level the logger reports right now, where the filter changes nothing yet and must still
+			// be there when a shared AtomicLevel is lowered later
+			thr := zapcore.Level(g.R.Intn(7) - 1)
+			if cur := lg.Level(); g.R.Bool() && cur >= zapcore.DebugLevel && cur <= zapcore.FatalLevel {
+				thr = cur
+			}
+			inc := &gen.Comp{Kind: "increase", Enab: &gen.Enab{Kind: "static", Thr: thr}, Kids: []*gen.Comp{root}}
+			inc.Collapsed = inc.IncreaseMustFail()
+			lg = lg.WithOptions(zap.IncreaseLevel(thr))
+			core, root, desc = lg.Core(), inc, "Logger.WithOptions(IncreaseLevel("+thr.String()+")) over "+desc
+			r.Count("loggers_derived_with_the_IncreaseLevel_option", 1)
+		}
 		hasDrop := shapes["dropsampler"] > 0
 		if hasDrop {
 			r.Count("compositions_with_dropping_sampler", 1)
